@@ -388,6 +388,8 @@ def z3_unsat(asserts: str, timeout_s=10):
         return True
     if out and out[0] == "sat":
         return False
+    if out and out[0].startswith("(error"):
+        return "error: " + out[0][:200]      # the query as the model prints it is not even well formed for z3
     return None
 
 
@@ -418,6 +420,8 @@ def tie_check(case, impl, model):
         if ans == "F":
             continue
         u = z3_unsat(ans)
+        if isinstance(u, str):
+            return f"the system z3 rejects the model's query for edge {e[0]}>{e[1]}: {u}"
         if u is False:
             return f"implementation removed edge {e[0]}>{e[1]} although its query (as the model builds it) is satisfiable"
     for e in kept:
